@@ -1,7 +1,8 @@
-"""C14 — only well-formed data is stored (store-level part)."""
+"""C14 — only well-formed data is stored (store level and through both front ends)."""
 import json
 from bodies import Tokens
 from storefam import gen_many, run_templates, replay_store
+from httpfam import run_http_templates
 
 AUDIT = "Audit/C14.lean"
 MODULE = "Xandikos.Theorems.C14"
@@ -16,6 +17,16 @@ def run(chk):
     n = 12 if chk.tier == "quick" else 150
     tmpls = gen_many(chk, toks, n, 25 if chk.tier == "quick" else 40, PROFILE)
     run_templates(chk, tmpls, toks, PREFIXES)
+    # the same under a restrictive umask (file modes differ from what git records)
+    import os
+    old_umask = os.umask(0o027)
+    try:
+        run_templates(chk, gen_many(chk, toks, 3 if chk.tier == "quick" else 30, 25, PROFILE), toks, PREFIXES,
+                      kinds=["tree", "bare-disk"], label="umask-027")
+    finally:
+        os.umask(old_umask)
+    # through the server, incl. a collection made by plain MKCOL (its type is only guessed)
+    run_http_templates(chk, Tokens(), 5 if chk.tier == "quick" else 50, 30, "mixed", PREFIXES)
 
 
 def replay(chk, path):
